@@ -257,7 +257,7 @@ func init() {
 			return
 		}
 		root := NewRand(c.seed)
-		n := c.size(150, 3000)
+		n := c.size(150, 1500)
 		if c.replay != nil {
 			n = 1
 		}
@@ -413,7 +413,7 @@ func raceChild(sc Scenario) (same bool, raceFree bool) {
 	f.WriteString(sc.json())
 	f.Close()
 	cmd := exec.Command(os.Args[0], "-prop", "C11child", "-replay", f.Name(), "-out", os.TempDir())
-	cmd.Env = append(os.Environ(), "VERIF_RACE_CHILD=1", "GORACE=exitcode=66 halt_on_error=0")
+	cmd.Env = append(os.Environ(), "VERIF_RACE_CHILD=1", "GORACE=exitcode=66 halt_on_error=0 atexit_sleep_ms=0")
 	out, err := cmd.CombinedOutput()
 	if ee, ok := err.(*exec.ExitError); ok {
 		if ee.ExitCode() == 66 || strings.Contains(string(out), "DATA RACE") {
